@@ -540,3 +540,60 @@ def translate_handle(repo: str) -> str:
         elif call.keywords:
             raise TranslateError(f"MessageDependency.{name}: arguments of the super call")
     return "\n".join(out) + "\n"
+
+
+
+class FnRabbit(Fn):
+    def expr(self, e: ast.AST) -> tuple[str, str]:
+        if isinstance(e, ast.UnaryOp) and isinstance(e.op, ast.USub):
+            c, t = self.expr(e.operand)
+            self.want(t, "Z", e)
+            return f"(- {c})", "Z"
+        if isinstance(e, ast.Call) and ast.unparse(e.func) == "timedelta" and not e.args and len(e.keywords) == 1 and \
+                e.keywords[0].arg == "milliseconds":
+            a, ta = self.expr(e.keywords[0].value)
+            self.want(ta, "Z", e)
+            return f"({a} * 1000)", "Z"
+        return super().expr(e)
+
+
+def translate_rabbit(repo: str) -> str:
+    """coq/GenRabbit.v: how RabbitMessageBroker.enqueue turns the due time into the per-message TTL (`expiration`, whole
+    milliseconds) that keeps the message in the delayed queue - and that it files the message there exactly when it sets one."""
+    rel = "repid/connections/rabbitmq/message_broker.py"
+    tree = ast.parse(Path(repo, rel).read_text())
+    node = find_func(tree, ["RabbitMessageBroker", "enqueue"])
+    body = list(node.body)
+    idx = next((i for i, st in enumerate(body) if isinstance(st, ast.AnnAssign) and ast.unparse(st.target) == "exp"), None)
+    if idx is None or ast.unparse(body[idx].value) != "None":
+        raise TranslateError("enqueue: `exp: ... = None` not found")
+    cond = body[idx + 1]
+    if not (isinstance(cond, ast.If) and not cond.orelse and ast.unparse(cond.test) == "(delayed := wait_until(params)) is not None"):
+        raise TranslateError("enqueue: `if (delayed := wait_until(params)) is not None:` not found after exp")
+    inner = [st for st in cond.body if not (isinstance(st, ast.Expr) and isinstance(st.value, ast.Constant))]
+    if not (len(inner) == 2 and isinstance(inner[0], ast.Assign) and ast.unparse(inner[0].targets[0]) == "millis" and
+            isinstance(inner[1], ast.If) and not inner[1].orelse and len(inner[1].body) == 1 and
+            ast.unparse(inner[1].body[0]) == "exp = str(millis)"):
+        raise TranslateError("enqueue: the body of the delay branch is not `millis = ...; if ...: exp = str(millis)`")
+    fn = FnRabbit("enqueue", "optZ", {"params": "p"}, {"delayed": ("d", "Z")})
+    millis, t = fn.expr(inner[0].value)
+    fn.want(t, "Z", inner[0].value)
+    fn.vars["millis"] = ("millis", "Z")
+    test, tt = fn.expr(inner[1].test)
+    fn.want(tt, "bool", inner[1].test)
+    rest = "\n".join(ast.unparse(st) for st in body[idx + 2:])
+    for needle in ("routing_key=self.qnc(key.queue, delayed=exp is not None)", "expiration=exp"):
+        if needle not in rest:
+            raise TranslateError(f"enqueue: `{needle}` not found in the publish call")
+    if "exp =" in rest or "exp:" in rest:
+        raise TranslateError("enqueue: exp is assigned again after the delay branch")
+    return "\n".join([
+        "(* GENERATED by harness/translate.py from /repo's current source - do not edit. *)",
+        "From Repid Require Import Base Sched GenSched.", "",
+        f"(* {rel} RabbitMessageBroker.enqueue: the per-message TTL (ms) under which a message is filed in the delayed queue;",
+        "   None = published to the normal queue without expiration (the publish call uses `delayed=exp is not None`, `expiration=exp`) *)",
+        "Definition gen_rabbit_expiration (p : params) (now : Z) : option Z :=",
+        f"  match gen_wait_until_rabbit p now with",
+        f"  | Some d => let millis := {millis} in if {test} then Some millis else None",
+        "  | None => None",
+        "  end.", ""])
